@@ -215,9 +215,9 @@ def do_job(job):
                     signal.alarm(20)
                     arr = (ctypes.c_int64 * max(1, len(lv)))(*[s64(x) for x in lv])
                     buf = ctypes.create_string_buffer(size)
+                    ctypes.memset(buf, 0xAA, size)          # stale bytes must not look like text
                     n = lib.verif_fill_json(arr, buf)
-                    r["c_fill"] = {"ok": buf.raw[:n].decode("latin-1"), "n": n,
-                                   "nul": buf.raw[n] == 0 if 0 <= n < size else None}
+                    r["c_fill"] = {"ok": buf.raw[:max(0, min(n, size))].decode("latin-1"), "n": n}
                 except BaseException as ex:  # noqa
                     r["c_fill"] = {"exc": type(ex).__name__}
                 finally:
@@ -227,8 +227,9 @@ def do_job(job):
                         signal.alarm(20)
                         sb = (ctypes.c_ubyte * (len(enc) + 8))(*enc)
                         buf = ctypes.create_string_buffer(size)
+                        ctypes.memset(buf, 0xAA, size)
                         n = lib.verif_decode_json(sb, buf)
-                        r["c_dec"] = {"ok": buf.raw[:n].decode("latin-1"), "n": n}
+                        r["c_dec"] = {"ok": buf.raw[:max(0, min(n, size))].decode("latin-1"), "n": n}
                     except BaseException as ex:  # noqa
                         r["c_dec"] = {"exc": type(ex).__name__}
                     finally:
